@@ -119,7 +119,15 @@ impl World {
         // in prefix mode its key prefix equals the key of a [b,1,[]] cell of that block
         let k = rng.range(1, 6);
         locks.push(s(b, 1, &k.to_be_bytes()));
-        let types = vec![s(c, 1, &[9]), s(c, 1, &[9, 9]), s(a, 1, &[1, 2]), s(c, 2, &[])];
+        // args that continue a searched prefix with a long run of 0xff (burn-address style): in a descending prefix scan
+        // their keys sort after any start key padded with fewer 0xff bytes than the args may be long
+        let ff = |head: &[u8], n: usize| { let mut v = head.to_vec(); v.extend(std::iter::repeat(0xffu8).take(n)); v };
+        locks.push(s(a, 1, &ff(&[1], 20)));
+        locks.push(s(a, 1, &ff(&[1, 2], 17)));
+        locks.push(s(a, 1, &ff(&[1, 2], 16)));
+        locks.push(s(b, 1, &ff(&[], 32)));
+        let mut types = vec![s(c, 1, &[9]), s(c, 1, &[9, 9]), s(a, 1, &[1, 2]), s(c, 2, &[])];
+        types.push(s(c, 1, &ff(&[9], 40)));
         World {
             locks,
             types,
